@@ -125,3 +125,26 @@ Print Assumptions C02_later_generations_agree.
 Theorem C02_embedded_spec_changes_its_input_refuted : ~ input_stable (lgen true).
 Proof. exact embedded_internalises_refuted. Qed.
 Print Assumptions C02_embedded_spec_changes_its_input_refuted.
+
+(** "(or the identical error)": the loops of the ErrorOnly shape (the import collectors: every map range whose only way out
+    is returning the entry's error).  Whether such a loop fails does not depend on the iteration order; the error it
+    returns is the error of some entry, so an error text that does not say WHICH entry failed is the same text in every
+    order; an error that names the failing entry is refuted as soon as two entries fail (the harness feeds the generator
+    documents that fail at several places at once and compares the error texts of repeated generations). *)
+Theorem C02_error_only_failure_is_order_independent : forall (K V A E : Type) (f : K -> V -> res A E) merge l l' acc acc',
+  Permutation l l' ->
+  ((exists e, error_only f merge l acc = RErr e) <-> (exists e, error_only f merge l' acc' = RErr e)).
+Proof. intros K V A E. exact (@error_only_failure_perm K V A E). Qed.
+Print Assumptions C02_error_only_failure_is_order_independent.
+
+Theorem C02_error_only_uniform_error : forall (K V A E : Type) (f : K -> V -> res A E) merge l l' acc acc' e0 e e',
+  (forall k v x, f k v = RErr x -> x = e0) -> Permutation l l' ->
+  error_only f merge l acc = RErr e -> error_only f merge l' acc' = RErr e' -> e = e'.
+Proof. intros K V A E. exact (@error_only_uniform_error K V A E). Qed.
+Print Assumptions C02_error_only_uniform_error.
+
+Theorem C02_error_naming_the_entry_refuted :
+  exists (f : nat -> unit -> res unit nat) l l', Permutation l l' /\
+    error_only f (fun a _ => a) l tt <> error_only f (fun a _ => a) l' tt.
+Proof. exact error_naming_the_entry_refuted. Qed.
+Print Assumptions C02_error_naming_the_entry_refuted.
